@@ -214,7 +214,9 @@ def glue(chk, cfg):
     if b:
         paths, N = an.analyse(cfg, b)
         r = [p for p in paths if p.end == "return"]
-        ok = len(r) == 1 and not r[0].guards and r[0].ret[0] == "call" and re.match(INTO, r[0].ret[1]) and r[0].ret[2] == (("seqview", P(1)),)
+        # iter() is into_iter() (row above): either spelling on the content of self
+        ok = len(r) == 1 and not r[0].guards and r[0].ret[0] == "call" and (re.match(INTO, r[0].ret[1]) or r[0].ret[1] == "seq::slice::SeqSlice::<A>::iter") and \
+            r[0].ret[2] == (("seqview", P(1)),)
         chk.ob("S-glue", "IntoIterator for &Seq", ok, "must be into_iter(content(self)): " + (show(r[0].ret) if r else "?"), b["span"],
                sample=show(r[0].ret) if r else None)
     b = an.one(chk, "S-glue", cfg.bio, "SeqSlice::chain", name="chain", self_re=r"^seq::slice::SeqSlice<A>$", inherent=True)
